@@ -6,10 +6,12 @@ import (
 	"math/rand"
 	"time"
 
+	"github.com/gogo/protobuf/proto"
 	"github.com/kardiachain/go-kardia/consensus"
 	"github.com/kardiachain/go-kardia/lib/common"
 	"github.com/kardiachain/go-kardia/lib/crypto"
 	"github.com/kardiachain/go-kardia/lib/merkle"
+	"github.com/kardiachain/go-kardia/lib/rlp"
 	kproto "github.com/kardiachain/go-kardia/proto/kardiachain/types"
 	"github.com/kardiachain/go-kardia/trie"
 	"github.com/kardiachain/go-kardia/types"
@@ -451,6 +453,50 @@ func SameHeaderOtherCommit(b *advBlock) *advBlock {
 	}
 	ps := blk.MakePartSet(types.BlockPartSizeBytes)
 	return &advBlock{blk, ps, types.BlockID{Hash: blk.Hash(), PartsHeader: ps.Header()}, false}
+}
+
+// SameHeaderOtherBody returns a block with b's header (so: b's hash) whose body differs: kind 0 appends a copy of a
+// transaction (or a junk one), kind 1 drops the transactions, kind 2 appends the block's own last evidence again (or
+// nothing if it has none -> nil). The bytes are well-formed protobuf; only the header's hashes no longer cover them.
+func SameHeaderOtherBody(b *advBlock, kind int) *advBlock {
+	pb, err := b.block.ToProto()
+	if err != nil {
+		return nil
+	}
+	switch kind {
+	case 0:
+		if n := len(pb.Data.Txs); n > 0 {
+			pb.Data.Txs = append(pb.Data.Txs, append([]byte{}, pb.Data.Txs[n-1]...))
+		} else {
+			tx := types.NewTransaction(7, common.BytesToAddress([]byte("other body")), big.NewInt(1), 21000, big.NewInt(1), nil)
+			bz, err := rlp.EncodeToBytes(tx)
+			if err != nil {
+				return nil
+			}
+			pb.Data.Txs = [][]byte{bz}
+		}
+	case 1:
+		if len(pb.Data.Txs) == 0 {
+			return nil
+		}
+		pb.Data.Txs = nil
+	default:
+		if n := len(pb.Evidence.Evidence); n > 0 {
+			pb.Evidence.Evidence = append(pb.Evidence.Evidence, pb.Evidence.Evidence[n-1])
+		} else {
+			return nil
+		}
+	}
+	bz, err := proto.Marshal(pb)
+	if err != nil {
+		return nil
+	}
+	blk, err := types.BlockFromProtoUnsafe(pb)
+	if err != nil || blk.Hash() != b.block.Hash() {
+		return nil
+	}
+	ps := types.NewPartSetFromData(bz, types.BlockPartSizeBytes)
+	return &advBlock{blk, ps, types.BlockID{Hash: b.block.Hash(), PartsHeader: ps.Header()}, false}
 }
 
 // PickFakeID returns the k-th fabricated block id.
